@@ -227,3 +227,80 @@ Proof.
   - cbn [fst]. rewrite map_app. cbn [map fst].
     apply NoDup_rev_snoc; [exact Hnd|]. exact (sfind_None _ _ E).
 Qed.
+
+(* ---------- candidates by type / by func / by name ------------------------------------------------------- *)
+
+Definition by_type_pred (p : point) (c : comp) : bool :=
+  type_ok c (pt_target p)
+  && match pt_sel p with SFunc m rets => func_ok c m rets | _ => true end.
+
+Lemma candidates_unnamed enum pop p :
+  (match pt_sel p with SByName _ => False | _ => True end) ->
+  pt_target p <> TOther ->
+  candidates enum pop p = map Some (filter_names pop (by_type_pred p) enum).
+Proof.
+  intros Hsel Ht. unfold candidates, by_type_pred.
+  destruct (pt_sel p) as [|n|m rets]; [|contradiction|].
+  - destruct (pt_target p); try contradiction; f_equal; unfold filter_names; apply filter_ext;
+      intros a; destruct (get_comp pop a); try reflexivity; rewrite andb_true_r; reflexivity.
+  - destruct (pt_target p); try contradiction; reflexivity.
+Qed.
+
+Lemma candidates_named enum pop p n :
+  pt_sel p = SByName n -> pt_slice p = false -> pt_target p <> TOther ->
+  candidates enum pop p = [n].
+Proof.
+  intros Hs Hsl Ht. unfold candidates. rewrite Hs, Hsl. destruct (pt_target p); try contradiction; reflexivity.
+Qed.
+
+(* what is finally proposed for an unnamed point on the repaired tree: every compatible, admitted
+   component of the enumeration, in enumeration order *)
+Definition resolved (enum : list name) (pop : population) (h : name) (p : point) : fres :=
+  filter_dependencies repaired pop h p (candidates enum pop p).
+
+Definition providers_of (enum : list name) (pop : population) (h : name) (p : point) : list name :=
+  filter (admitted pop h p) (filter_names pop (by_type_pred p) enum).
+
+Lemma resolved_unnamed enum pop h p :
+  (match pt_sel p with SByName _ => False | _ => True end) ->
+  pt_target p <> TOther ->
+  resolved enum pop h p =
+  match providers_of enum pop h p with
+  | [] => FErr
+  | l => FOk (if pt_slice p then l else rank_single pop l)
+  end.
+Proof.
+  intros Hsel Ht. unfold resolved. rewrite filter_dependencies_repaired by reflexivity.
+  unfold survivors. rewrite (candidates_unnamed enum pop p Hsel Ht), remove_nil_map_Some. reflexivity.
+Qed.
+
+Lemma providers_of_In enum pop h p n :
+  In n (providers_of enum pop h p) <->
+  In n enum /\ n <> h /\ (exists c, get_comp pop n = Some c /\ by_type_pred p c = true)
+  /\ match pt_quals p with Some qs => qual_ok pop qs n = true | None => True end.
+Proof.
+  unfold providers_of, admitted. rewrite filter_In, filter_names_In, andb_true_iff, negb_true_iff, Nat.eqb_neq.
+  destruct (pt_quals p); intuition.
+Qed.
+
+Lemma providers_of_NoDup enum pop h p : NoDup enum -> NoDup (providers_of enum pop h p).
+Proof. intros H. apply NoDup_filter, filter_names_NoDup, H. Qed.
+
+Lemma register_all_NoDup rs : forall s, NoDup (map fst s) -> NoDup (map fst (fst (register_all s rs))).
+Proof.
+  induction rs as [|r rest IH]; intros s Hnd; cbn [register_all]; [exact Hnd|].
+  pose proof (register_NoDup s r Hnd) as H1.
+  destruct (register s r) as [s' o] eqn:E. cbn [fst] in H1.
+  destruct o.
+  - specialize (IH s' H1). destruct (register_all s' rest) as [s2 outs]. exact IH.
+  - specialize (IH s' H1). destruct (register_all s' rest) as [s2 outs]. exact IH.
+  - exact H1.
+Qed.
+
+Lemma further_loop_total vt pop h ps inj :
+  fix_c08 vt = true ->
+  (exists out, further_loop vt pop h ps inj = LOk out) \/ further_loop vt pop h ps inj = LErr.
+Proof.
+  intros Hfix. rewrite (further_loop_pointwise vt pop h ps Hfix).
+  destruct (pointwise vt pop h ps inj); [left; eexists; reflexivity|right; reflexivity].
+Qed.
